@@ -1,33 +1,289 @@
 package main
 
 import (
+	"fmt"
 	"go/token"
+	"go/types"
+	"strings"
 
 	"golang.org/x/tools/go/ssa"
 )
 
-// lock-set / guarded-by support (filled in for C16/C17/C08)
+// Lock-set / guarded-by support.
+//
+// Ghost lock state: one heap array per mutex field, "LK_<place prefix>" : Array Int Int indexed
+// by the object holding the mutex; 0 = not held by this thread, 1 = write-held, 2 = read-held.
+// sync.Mutex/RWMutex semantics (mutual exclusion) are assumed; what is proved is that every
+// access to a guarded field happens while the guarding lock is held (race freedom on those
+// fields follows for all schedules).
 
 type lockCfg struct{}
 
+// guardSrc records that a map/slice value was loaded from a guarded field of object Obj.
+type guardSrc struct {
+	Field string // "Type.field"
+	Lock  string // lock array name
+	Obj   Term   // the lock object (sub-object reference of the mutex)
+	Owner Term   // the object holding the guarded field
+}
+
 func (fv *FuncVerifier) initLocks(st *State) {}
 
-func (fv *FuncVerifier) guardAccess(st *State, m ssa.Value, write bool, pos token.Pos) {}
+func lockArrayOfPlace(p *Place) (string, Term, bool) {
+	if p == nil || p.Kind != PHeap {
+		return "", Term{}, false
+	}
+	return "LK_" + p.Prefix, p.Obj, true
+}
 
+// guardFor returns the guard declaration for a heap place (prefix "H_<Type>.<field>...").
+func (fv *FuncVerifier) guardFor(p *Place) (field, lockArr string, lockObj Term, ok bool) {
+	if p.Kind != PHeap || len(fv.db.Guards) == 0 {
+		return "", "", Term{}, false
+	}
+	for _, g := range fv.db.Guards {
+		pkg := fv.enc.pkgByPath(g.Pkg)
+		if pkg == nil {
+			continue
+		}
+		fp, ok1 := guardPrefix(pkg, g.Field)
+		mp, ok2 := guardPrefix(pkg, g.Mutex)
+		if !ok1 || !ok2 {
+			continue
+		}
+		if p.Prefix == fp || strings.HasPrefix(p.Prefix, fp+".") {
+			mt, ok3 := guardFieldType(pkg, g.Mutex)
+			if !ok3 {
+				continue
+			}
+			// the mutex is a sub-object of the guarded object
+			return g.Field, "LK_H_" + typeKey(mt), fv.enc.subObj(mp, p.Obj), true
+		}
+	}
+	return "", "", Term{}, false
+}
+
+func guardFieldType(pkg *types.Package, tf string) (types.Type, bool) {
+	i := strings.LastIndex(tf, ".")
+	if i < 0 {
+		return nil, false
+	}
+	obj := pkg.Scope().Lookup(tf[:i])
+	if obj == nil {
+		return nil, false
+	}
+	st, ok := obj.Type().Underlying().(*types.Struct)
+	if !ok {
+		return nil, false
+	}
+	for k := 0; k < st.NumFields(); k++ {
+		if st.Field(k).Name() == tf[i+1:] {
+			return st.Field(k).Type(), true
+		}
+	}
+	return nil, false
+}
+
+func guardPrefix(pkg *types.Package, tf string) (string, bool) {
+	i := strings.LastIndex(tf, ".")
+	if i < 0 {
+		return "", false
+	}
+	obj := pkg.Scope().Lookup(tf[:i])
+	if obj == nil {
+		return "", false
+	}
+	return "H_" + typeKey(obj.Type()) + "." + tf[i+1:], true
+}
+
+// checkGuard emits the guarded-by obligation for an access to place p.
+func (fv *FuncVerifier) checkGuard(st *State, p *Place, write bool, pos token.Pos) *guardSrc {
+	field, lockArr, lockObj, ok := fv.guardFor(p)
+	if !ok {
+		return nil
+	}
+	la := st.heapArr(lockArr, SArr)
+	state := Select(la, lockObj)
+	var goal Term
+	mode := "r"
+	if write {
+		goal = Eq(state, I(1))
+		mode = "w"
+	} else {
+		goal = Or(Eq(state, I(1)), Eq(state, I(2)))
+	}
+	// freshly allocated objects are not yet shared: accesses need no lock
+	goal = Or(goal, Ge(p.Obj, fv.pre.hwm))
+	fv.addOb(st, "guard", fmt.Sprintf("guard[%s]@%s", field, mode), goal, fmt.Sprintf("%s access to %s requires its lock", map[bool]string{true: "write", false: "read"}[write], field), pos)
+	return &guardSrc{Field: field, Lock: lockArr, Obj: lockObj, Owner: p.Obj}
+}
+
+// guardAccess: access to the contents of a map value (lookup, update, range, len, delete).
+func (fv *FuncVerifier) guardAccess(st *State, m ssa.Value, write bool, pos token.Pos) {
+	v, ok := st.regs[m]
+	if !ok || v.Guard == nil {
+		return
+	}
+	g := v.Guard
+	la := st.heapArr(g.Lock, SArr)
+	state := Select(la, g.Obj)
+	var goal Term
+	mode := "r"
+	if write {
+		goal = Eq(state, I(1))
+		mode = "w"
+	} else {
+		goal = Or(Eq(state, I(1)), Eq(state, I(2)))
+	}
+	goal = Or(goal, Ge(g.Owner, fv.pre.hwm))
+	fv.addOb(st, "guard", fmt.Sprintf("guard[%s contents]@%s", g.Field, mode), goal, fmt.Sprintf("%s of the contents of %s requires its lock", map[bool]string{true: "update", false: "read"}[write], g.Field), pos)
+}
+
+// markMapDirty: the content version of the updated map changes (maps are otherwise opaque).
 func (fv *FuncVerifier) markMapDirty(st *State, m ssa.Value) {
-	st.havocPrefix("M_")
+	mv := st.get(m)
+	a := st.heapArr("M_content", SArr)
+	nv := fv.enc.fresh("mapver", SInt)
+	st.setHeap("M_content", Store(a, mv.L[0], nv))
 }
 
 func (fv *FuncVerifier) checkLocksAtExit(st *State, retIdx int, pos token.Pos) {}
 
-func (fv *FuncVerifier) locksInFrame() bool { return false }
+func (fv *FuncVerifier) locksInFrame() bool { return true }
 
+// lockPred: wheld(x.mu), rheld(x.mu), held(x.mu) (either), unheld(x.mu)
 func (env *Env) lockPred(x *SCall) Value {
-	env.fail("lock predicates not available yet")
+	if len(x.Args) != 1 {
+		env.fail("%s takes one argument", x.Fn)
+	}
+	f, ok := x.Args[0].(*SField)
+	if !ok {
+		env.fail("%s: argument must be a mutex field x.mu", x.Fn)
+	}
+	base := env.eval(f.X)
+	t, isPtr := derefType(base.Typ)
+	if !isPtr {
+		env.fail("%s: %s is not a pointer", x.Fn, f.X.String())
+	}
+	if _, isStruct := t.Underlying().(*types.Struct); !isStruct {
+		env.fail("%s: not a struct", x.Fn)
+	}
+	stt := t.Underlying().(*types.Struct)
+	var mt types.Type
+	for k := 0; k < stt.NumFields(); k++ {
+		if stt.Field(k).Name() == f.Name {
+			mt = stt.Field(k).Type()
+		}
+	}
+	if mt == nil {
+		env.fail("%s: no field %s", x.Fn, f.Name)
+	}
+	arr := env.st.heapArr("LK_H_"+typeKey(mt), SArr)
+	state := Select(arr, env.enc.subObj("H_"+typeKey(t)+"."+f.Name, base.L[0]))
+	switch x.Fn {
+	case "wheld":
+		return boolVal(Eq(state, I(1)))
+	case "rheld":
+		return boolVal(Eq(state, I(2)))
+	case "held":
+		return boolVal(Or(Eq(state, I(1)), Eq(state, I(2))))
+	case "unheld":
+		return boolVal(Eq(state, I(0)))
+	}
+	env.fail("unknown lock predicate")
 	return Value{}
 }
 
+// unchanged(Region): every heap array of the region's fields equals its old version, and no map
+// that existed in the old state was updated.
 func (env *Env) unchanged(x *SCall) Value {
-	env.fail("unchanged() not available yet")
-	return Value{}
+	if env.old == nil {
+		env.fail("unchanged() needs a two-state context")
+	}
+	id, ok := x.Args[0].(*SIdent)
+	if !ok {
+		env.fail("unchanged: region name expected")
+	}
+	fields, ok := env.enc.db.Regions[id.Name]
+	if !ok {
+		env.fail("unknown region %s", id.Name)
+	}
+	var cs []Term
+	for _, tf := range fields {
+		i := strings.LastIndex(tf, ".")
+		t := env.resolveType(tf[:i])
+		st, ok := t.Underlying().(*types.Struct)
+		if !ok {
+			env.fail("region field %s: not a struct type", tf)
+		}
+		var ft types.Type
+		for k := 0; k < st.NumFields(); k++ {
+			if st.Field(k).Name() == tf[i+1:] {
+				ft = st.Field(k).Type()
+			}
+		}
+		if ft == nil {
+			env.fail("region field %s not found", tf)
+		}
+		prefix := "H_" + typeKey(t) + "." + tf[i+1:]
+		env.enc.registerRefLeaves("H_"+typeKey(t), t, 1)
+		for _, l := range flatten(ft) {
+			name := prefix + l.Suffix
+			cur := env.st.heapArr(name, arrSort(l.Sort))
+			old := env.old.heapArr(name, arrSort(l.Sort))
+			if cur.S == old.S {
+				continue
+			}
+			r := Term{"r!u", SInt}
+			cs = append(cs, Forall([]string{"r!u"}, Implies(And(Le(I(0), r), Lt(r, env.old.hwm)), Eq(Select(cur, r), Select(old, r)))))
+		}
+	}
+	cur := env.st.heapArr("M_content", SArr)
+	old := env.old.heapArr("M_content", SArr)
+	if cur.S != old.S {
+		r := Term{"r!u", SInt}
+		cs = append(cs, Forall([]string{"r!u"}, Implies(And(Le(I(0), r), Lt(r, env.old.hwm)), Eq(Select(cur, r), Select(old, r)))))
+	}
+	return boolVal(And(cs...))
+}
+
+// ---------------------------------------------------------------------------
+// natives for sync
+
+func lockNative(doc string, requireState []int64, newState int64, what string) *native {
+	return &native{
+		doc: doc, pure: false, prefixes: []string{"LK_"},
+		apply: func(fv *FuncVerifier, st *State, cc *ssa.CallCommon, args []Value, pos token.Pos) Value {
+			if len(args) == 0 || args[0].Place == nil {
+				// lock reached through an unknown pointer: identity unknown; nothing tracked
+				return Value{}
+			}
+			name, obj, ok := lockArrayOfPlace(st.resolve(args[0].Place))
+			if !ok {
+				return Value{}
+			}
+			la := st.heapArr(name, SArr)
+			cur := Select(la, obj)
+			if len(requireState) > 0 {
+				var ds []Term
+				for _, s := range requireState {
+					ds = append(ds, Eq(cur, I(s)))
+				}
+				g := Or(ds...)
+				fv.addOb(st, "lock", fmt.Sprintf("lock[%s %s]", what, strings.TrimPrefix(name, "LK_H_")), g, what+" needs the lock in the right state", pos)
+				st.assume(g)
+			}
+			st.setHeap(name, Store(la, obj, I(newState)))
+			return Value{}
+		},
+	}
+}
+
+func initLockNatives() {
+	natives["(*sync.Mutex).Lock"] = lockNative("assumed: mutual exclusion; ghost state 0->1", nil, 1, "Lock")
+	natives["(*sync.Mutex).Unlock"] = lockNative("assumed: ghost state 1->0; unlocking an unheld mutex is an error", []int64{1}, 0, "Unlock")
+	natives["(*sync.RWMutex).Lock"] = lockNative("assumed: mutual exclusion; ghost state 0->1", nil, 1, "Lock")
+	natives["(*sync.RWMutex).Unlock"] = lockNative("assumed: ghost state 1->0", []int64{1}, 0, "Unlock")
+	natives["(*sync.RWMutex).RLock"] = lockNative("assumed: shared lock; ghost state 0->2", nil, 2, "RLock")
+	natives["(*sync.RWMutex).RUnlock"] = lockNative("assumed: ghost state 2->0", []int64{2}, 0, "RUnlock")
 }
